@@ -615,6 +615,41 @@ def r11(F, R):
 
 
 
+NUMERIC_MODULES = ("transform::", "math::", "dynamics::", "stepsize::", "nuts::", "mclmc::", "adapt_strategy::", "external_adapt_strategy::", "chain::",
+                   "<transform::", "<math::", "<dynamics::", "<stepsize::", "<nuts::", "<mclmc::", "<adapt_strategy::", "<external_adapt_strategy::", "<chain::")
+
+
+def _narrowing_casts(F, in_scope):
+    out = []
+    for b in sorted(F.bodies.values(), key=lambda x: x.path):
+        if not in_scope(b) or K.is_std_derive(b):
+            continue
+        for bi, blk in enumerate(b.blocks):
+            if blk["cleanup"]:
+                continue
+            for st in blk["stmts"]:
+                if st["k"] == "assign" and st["rv"]["k"] == "cast" and st["rv"].get("ck") == "FloatToFloat" and str(st["rv"].get("ty")) == "f32":
+                    out.append((b, bi, st))
+    return out
+
+
+def r12(F, R):
+    R.rule("C08-R12", "exact to rounding means f64 rounding: no value of the sampler's numeric path (transformations and their adaptation windows, math kernels, "
+                      "dynamics, step size, trees) is narrowed to f32 (`as f32`): draws stored in single precision lose digits relative to their magnitude, not "
+                      "their spread, and the recovered mean / covariance of a Gaussian far from the origin is wrong")
+    hits = _narrowing_casts(F, lambda b: b.path.startswith(NUMERIC_MODULES))
+    for (b, bi, st) in hits:
+        R.bad("C08-R12", "%s:f64-as-f32" % b.path, "%s @%s" % (b.path, loc(st["span"])), "a value is narrowed to f32 here (%s)" % vt_str(b.rvalue_value(st["rv"]))[:80])
+    if not hits:
+        n = sum(1 for b in F.bodies.values() if b.path.startswith(NUMERIC_MODULES))
+        R.ok("C08-R12", "scan", "numeric modules", "%d function bodies, no f64 -> f32 cast" % n)
+    P = K.positive_facts()
+    if any(b.path.endswith("c08_narrow") for (b, _bi, _st) in _narrowing_casts(P, lambda b: True)):
+        R.ok("C08-R12", "positive-control", "fixtures/positive", "the planted `x as f32` is reported")
+    else:
+        R.bad("C08-R12", "positive-control", "fixtures/positive", "matcher failed to report the planted f64 -> f32 cast")
+
+
 def run(F, R, config=None):
     r1_r3(F, R)
     r7(F, R)
@@ -626,6 +661,7 @@ def run(F, R, config=None):
     r8(F, R)
     r9(F, R)
     r11(F, R)
+    r12(F, R)
     from . import c02
     K.borrow_rule(R, lambda sub: c02.r10(F, sub), "C08-R10", "no logarithm of a product reduction in the transformation / math code: finite positive scales and "
                   "eigenvalues give a finite log-determinant (C02-R10 analysis)", only_rules={"C02-R10"})
